@@ -38,6 +38,16 @@ struct GeoSource
     GeoFixture* fix = nullptr;
     std::unique_ptr<GeoFixture> owned;
     bool rich = false;  // has internal surfaces / background / daughter / array
+    // hints for start points (global frame): centres of regions and of
+    // embedded universes with their nesting level; pure bookkeeping of the
+    // generator (no choices are drawn for them)
+    struct Anchor
+    {
+        double pos[3];
+        double radius;
+        int level;
+    };
+    std::vector<Anchor> anchors;
 };
 
 inline std::vector<std::unique_ptr<GeoFixture>>& bundled_fixtures()
@@ -428,7 +438,13 @@ struct Built
     OrangeInput input;
     bool rich = false;
     double half = 10;
+    std::vector<GeoSource::Anchor> anchors;
 };
+
+inline Real3 transform_up(VariantTransform const& t, Real3 const& p)
+{
+    return std::visit([&p](auto const& tr) { return tr.transform_up(p); }, t);
+}
 
 inline VariantTransform gen_transform(Choices& c, CaseLog& log, Real3 const& t)
 {
@@ -469,7 +485,8 @@ inline UnitInput gen_unit(Choices& c,
                           size_t self_index,
                           std::string label,
                           bool* rich,
-                          bool force_box = false)
+                          bool force_box = false,
+                          std::vector<GeoSource::Anchor>* anchors = nullptr)
 {
     UnitBuilder b;
     b.u.label = Label{label};
@@ -512,6 +529,11 @@ inline UnitInput gen_unit(Choices& c,
     std::vector<Region> regs;
     for (int i = 0; i < nreg; ++i)
         regs.push_back(gen_region(c, log, b, w));
+    if (anchors)
+        for (auto const& r : regs)
+            if (r.radius > 0)
+                anchors->push_back(
+                    {{r.center[0], r.center[1], r.center[2]}, r.radius, 0});
     bool use_bbox = c.boolean(0.6);
     for (int i = 0; i < nreg; ++i)
     {
@@ -581,6 +603,8 @@ inline UnitInput gen_unit(Choices& c,
         DaughterInput di;
         di.universe_id = UniverseId{size_type(slot)};
         di.transform = gen_transform(c, log, ctr);
+        std::vector<GeoSource::Anchor> child;
+        int child_levels = 1;
         if (!arr)
         {
             double dw = rad * c.real_in(1.0, 1.6);  // boundary half-width >= rad
@@ -592,7 +616,10 @@ inline UnitInput gen_unit(Choices& c,
                                        universes,
                                        slot,
                                        label + ".d",
-                                       rich);
+                                       rich,
+                                       false,
+                                       &child);
+            child.push_back({{0, 0, 0}, rad * 0.5, -1});
         }
         else
         {
@@ -621,7 +648,42 @@ inline UnitInput gen_unit(Choices& c,
                                         cslot,
                                         label + ".cell",
                                         rich,
-                                        true);
+                                        true,
+                                        &child);
+            child_levels = 2;
+            {
+                // map the cell's anchors into the array frame (first and last
+                // cell)
+                std::vector<GeoSource::Anchor> cells;
+                for (int which = 0; which < 2; ++which)
+                {
+                    int i = which ? n[0] - 1 : 0, j = which ? n[1] - 1 : 0,
+                        k = which ? n[2] - 1 : 0;
+                    Real3 cc{(ra.grid[0][i] + ra.grid[0][i + 1]) / 2,
+                             (ra.grid[1][j] + ra.grid[1][j + 1]) / 2,
+                             (ra.grid[2][k] + ra.grid[2][k + 1]) / 2};
+                    double hw = std::min({ra.grid[0][1] - ra.grid[0][0],
+                                          ra.grid[1][1] - ra.grid[1][0],
+                                          ra.grid[2][1] - ra.grid[2][0]})
+                                / 2;
+                    for (auto a : child)
+                    {
+                        // keep anchors inside the cell
+                        bool in = true;
+                        for (int q = 0; q < 3; ++q)
+                            in = in
+                                 && std::fabs(a.pos[q])
+                                        < (ra.grid[q][1] - ra.grid[q][0]) / 2;
+                        if (!in)
+                            continue;
+                        for (int q = 0; q < 3; ++q)
+                            a.pos[q] += cc[q];
+                        cells.push_back(a);
+                    }
+                    cells.push_back({{cc[0], cc[1], cc[2]}, hw * 0.5, -1});
+                }
+                child = std::move(cells);
+            }
             for (int i = 0; i < n[0]; ++i)
                 for (int j = 0; j < n[1]; ++j)
                     for (int k = 0; k < n[2]; ++k)
@@ -636,6 +698,23 @@ inline UnitInput gen_unit(Choices& c,
                     }
             universes[slot] = std::move(ra);
         }
+        if (anchors)
+            for (auto a : child)
+            {
+                // daughter frame -> this frame; only points inside the hole
+                double n2 = 0;
+                for (int q = 0; q < 3; ++q)
+                    n2 += a.pos[q] * a.pos[q];
+                if (!(std::sqrt(n2) < 0.9 * rad))
+                    continue;
+                Real3 up = transform_up(
+                    di.transform, Real3{a.pos[0], a.pos[1], a.pos[2]});
+                a.radius = std::min(a.radius, 0.9 * rad - std::sqrt(n2));
+                a.level = (a.level < 0 ? 0 : a.level) + child_levels;
+                for (int q = 0; q < 3; ++q)
+                    a.pos[q] = up[q];
+                anchors->push_back(a);
+            }
         b.u.daughter_map[hole_vol] = di;
         b.u.volumes[hole_vol.get()].flags |= VolumeRecord::embedded_universe;
         *rich = true;
@@ -695,7 +774,9 @@ inline Built generate(Choices& c, CaseLog& log)
                               out.input.universes,
                               0,
                               "u0",
-                              &out.rich);
+                              &out.rich,
+                              false,
+                              &out.anchors);
     out.input.universes[0] = std::move(root);
     return out;
 }
@@ -737,6 +818,7 @@ inline Verdict choose_geometry(Choices& c, CaseLog& log, GeoSource& src)
         }
         src.fix = src.owned.get();
         src.rich = b.rich;
+        src.anchors = std::move(b.anchors);
         if (log.want_desc)
         {
             std::ostringstream os;
